@@ -2,6 +2,7 @@ import GdVerif.Run.Reader
 import GdVerif.Run.Valve
 import GdVerif.Run.GenValve
 import GdVerif.Run.Gs1
+import GdVerif.Run.GenGs1
 /-
   gdmodel: the model behind a line protocol.
     gdmodel run        : reads `<id> <entry> <args…>` lines on stdin, prints `<id> <outcome>`
@@ -36,6 +37,7 @@ def main (args : List String) : IO UInt32 := do
     | some seed, some n =>
       let lines := match suite with
         | "valve" => genValve seed n
+        | "gs1" => genGs1 seed n
         | _ => []
       for l in lines do IO.println l
       return 0
